@@ -33,6 +33,9 @@ type Kind struct {
 	Precise  bool          `json:"precise"`  // strategy kind
 	// ViaPool: the queue limiter is built by pool.NewPool(delegate, ordering, Backlog, PoolTimeout, ...) - Timeout is then the
 	// bound that results (the documented default of one second for a PoolTimeout <= 0); World.Queue is nil
+	// ZoneOffset: the deadline handed to the deadline limiter is expressed in a fixed zone that many seconds east of UTC
+	// (the same instant; only the Location of the time.Time value differs)
+	ZoneOffset  int           `json:"deadline_zone_offset_seconds,omitempty"`
 	ViaPool     bool          `json:"via_pool,omitempty"`
 	PoolTimeout time.Duration `json:"pool_timeout_argument,omitempty"`
 }
@@ -135,7 +138,11 @@ func NewWorld(k Kind, capacity int) *World {
 		w.Lim = limiter.NewBlockingLimiter(w.Gate, k.Timeout, nil)
 	case "deadline":
 		w.Deadline = time.Now().Add(k.Timeout)
-		w.Lim = limiter.NewDeadlineLimiter(w.Gate, w.Deadline, nil)
+		dl := w.Deadline
+		if k.ZoneOffset != 0 {
+			dl = dl.In(time.FixedZone("fixed", k.ZoneOffset))
+		}
+		w.Lim = limiter.NewDeadlineLimiter(w.Gate, dl, nil)
 	case "queue":
 		if k.ViaPool {
 			o := pool.OrderingFIFO
